@@ -18,7 +18,10 @@ LEVEL_TEXT = ('Static decision of the structural necessary conditions: every eva
               'value is the holder the objective wrote for the same item and slot; holders are owned per item; '
               'only the evaluation routine and the (coherent) local refinement write trial fields; the point object of '
               'every search item is allocated by the library for that item (never a caller-supplied or shared object); outside constructors only the optimum updater '
-              'stores into the best-trial slot of the Solution.')
+              'stores into the best-trial slot of the Solution (the solving path; state-restoring entry points are '
+              'outside it); where state-saving / state-restoring routines exist and exchange the trial record through '
+              'string keys that can be read from the code, every field is restored from the key that was filled from '
+              'that field (writer / reader agreement; other storage designs are left out and counted).')
 EXPLANATION = ('Event traces of the iteration driver (seeding routine inlined) pair EVAL(p) with UPDATE_OPT(p); the '
                'optimum updater is checked path by path against the truth table of the three-way predicate over '
                'all worlds compatible with the path guards; wiring of point/holder/slot through the task wrapper '
@@ -553,9 +556,18 @@ def r04_7(ctx: Ctx):
     ctx.floor(rid, 'search items created by the library', n, 1)
 
 
+def r04_9(ctx: Ctx):
+    """A restored best trial reports the value it had: the state-restoring routines give every field of the trial
+    record back from the key the saving routine filled from that field (iva/rules/persist.py)."""
+    from . import persist
+    persist.rule_restore_agreement(ctx, 'R04.9')
+
+
 def check(ctx: Ctx):
     for rid, fn in (('R04.1', r04_1), ('R04.2', r04_2_3), ('R04.4', r04_4), ('R04.5', r04_5), ('R04.6', r04_6),
                     ('R04.7', r04_7)):
         if C.want(ctx, rid) or (rid == 'R04.2' and C.want(ctx, 'R04.3')):
             fn(ctx)
+    if C.want(ctx, 'R04.9'):
+        r04_9(ctx)
     ctx.assume('Problem.Calculate returns the holder it was given with the value stored in it (decided under C15)')
